@@ -59,6 +59,8 @@ template <typename Item, typename Alloc>
 void bag<Item, Alloc>::clear() {
   m_comm.barrier();
   m_local_bag.clear();
+  // No rank may insert again before every rank has emptied its bag.
+  m_comm.cf_barrier();
 }
 
 template <typename Item, typename Alloc>
